@@ -520,20 +520,21 @@ def dynLength (k : DynKind) (L n : Nat) : Int :=
 
 /-- name/length are defined with mode 0o000; global.go:199-217: every kind (bound ones too) gets an own `prototype` with
     mode 0o100 whose `constructor` has mode 0o101 (newNodeFunction) resp. 0o100 (newBoundFunction); `caller` of node functions
-    is an accessor stored with mode 0o000, which property.go:98-104 isDataDescriptor takes for a data property, so
-    property.go:199 fromPropertyDescriptor fails its type assertion (a Go panic that leaves Run) -/
+    (type_function.go:128-146) and `stack` of errors (type_error.go:13-21) are accessors stored with a mode that
+    property.go:98-104 isDataDescriptor takes for a data property; since /repo f48e83f property.go:197-221
+    fromPropertyDescriptor decides by the stored value and returns {get, set, enumerable:false, configurable} -/
 def dyn (k : DynKind) (L n : Nat) : DynField → String
   | .length => toString (dynLength k L n).toNat ++ "|" ++ (attrs 0o000).tok    -- (never negative after the clamp)
   | .hasproto => "P"
   | .protoattr => (attrs 0o100).tok
   | .ctor => "self|" ++ (attrs (if k = .bound then 0o100 else 0o101)).tok
   | .enumown => "0"
-  | .callerdesc => if k = .bound then "ok" else "panic"
+  | .callerdesc => "ok"
+  | .stackdesc => "ok"
 
 /-- `dynfn <kind> <L> <n> <field>` -/
 def devDyn (k : DynKind) (f : DynField) : String :=
   if k = .bound ∧ (f = .hasproto ∨ f = .protoattr ∨ f = .ctor) then "bound_has_prototype"
-  else if k ≠ .bound ∧ f = .callerdesc then "accessor_descriptor_panic"
   else "-"
 
 /-! ### deviation regions: decidable predicates on the request, each naming one defect -/
